@@ -96,6 +96,10 @@ func drawParams(k int, r *prng.R, tier string) caseParams {
 func runCase(k int, seed uint64, tier string) *caseOut {
 	c := &caseOut{k: k, cnt: counters{m: map[string]int{}}}
 	r := prng.ForCase(seed, k)
+	if k == 6 || k == 7 || (tier == "thorough" && k%10 == 8) {
+		jumpCase(c, r, k == 7 || k%20 == 18)
+		return c
+	}
 	p := drawParams(k, r, tier)
 	c.cnt.count("kind:" + p.kind)
 	steps := genSchedule(r, uint32(p.n), p.pfMille, p.hdrs)
